@@ -74,7 +74,7 @@ func checkGenDebug(r *Run) error {
 			}
 		}
 		return false
-	}, []basis.Options{{}})
+	}, genDebugOpts())
 	if err != nil {
 		return err
 	}
@@ -84,4 +84,14 @@ func checkGenDebug(r *Run) error {
 	}
 	only := getenv("GEN_FUNC", "")
 	return r.verify(gs.E, pkgs, Selection{FuncFilter: func(k string) bool { return only == "" || strings.Contains(k, only) }}, false)
+}
+
+func genDebugOpts() []basis.Options {
+	if getenv("GEN_OPTS", "") == "all" {
+		return nil // the tier's option sets
+	}
+	if o := getenv("GEN_OPTS", ""); len(o) == 5 {
+		return []basis.Options{{Ptr: o[0] != '0', Private: o[1] != '0', Tags: o[2] != '0', Unsafe: o[3] != '0', Shared: o[4] != '0'}}
+	}
+	return []basis.Options{{}}
 }
